@@ -1,8 +1,18 @@
-HOOK_COMMITS = []
+HOOK_COMMITS = ["dee96d4", "bf7d115"]
 
 NOT_APPLICABLE = {}
 
 META = {
+    "C03": {
+        "technique": "Lean 4 theorems (decision logic per kind over the whole string space) + differential correspondence + Lean oracle on the implementation's observations",
+        "text": "Kernel-checked theorems over all integers and all strings: every in-range integer written canonically is stored exactly (C03_int32/uint32/int64/uint64_exact, all n), every out-of-range integer is rejected (…_overflow, all n: MIN-1, MAX+1 and beyond), any non-digit rune in a 64-bit cell is rejected (C03_garbage_*), the twelve bool spellings are accepted and every other whole-cell text rejected, blank cells are absent. The model of ParseFieldValue (integer families, bool) is tied to the code by an exhaustive/boundary/random differential stream; the property's must-accept/must-reject oracle (Lean) judges every implementation observation.",
+        "note": "Trusted: Lean kernel; model only as far as the stream checks it; float64 rounding of strconv.ParseFloat is outside the model (modelled class avoids it). Partial: enum, float/double and well-known kinds are judged through later streams, not these theorems.",
+    },
+    "C07": {
+        "technique": "Lean 4 theorems (bijectivity of the A1 encoding) + differential correspondence of the error-text protocol + Lean oracle",
+        "text": "Kernel-checked: the column letters decode back to the column for every n (C07_a1), the A1 text determines row and column (C07_position_injective). The key/value error-text protocol (ErrorKV/WrapKV/NewDesc) is modelled and tied to the code by a differential stream over generated nested error values; the oracle 'innermost layer wins' judges the implementation's Desc.",
+        "note": "Trusted: Lean kernel; model as far as streams check it. Partial: the single-cell-corruption statement over the whole table parser is decided by the end-to-end stream, not yet by a theorem.",
+    },
     "C14": {
         "technique": "Lean 4 theorem (decision logic stated outright) + regenerated source pins + differential correspondence",
         "text": "Kernel-checked theorems: the three-level resolver equals 'most specific non-empty setting, else default' for every presence pattern and all values (C14_resolve), field > sheet > book > default for separators (C14_sep_field/C14_subsep_field), and what confgen resolves from the options protogen records equals what protogen used (C14_recorded_agree_partial: without a book-level '#' row; the full statement is refuted by a kernel-checked witness, finding D11). The model is tied to the code by pins over the regenerated if-chains of MergeHeader and default constants, and by differential streams against the real MergeHeader / parseFieldDescriptor / newTableParser.",
